@@ -260,7 +260,7 @@ def analyse_solve(proj):
     # ---------------- prologue obligations
     raised = [o for o in others if o.done == "raise"]
     # empty stop criteria raise: on paths with no tsave and stop None
-    empty_raise = any(o.bools.get("stop is None") is True for o in raised)
+    empty_raise = any(o.bools.get("stop is None") is True or o.bools.get("truth(stop)") is False for o in raised)
     if empty_raise:
         res.ok("DRV-STOP", "an empty criterion set raises (no tsave, stop None)")
     else:
